@@ -139,6 +139,7 @@ pub fn gen_flags(rng: &mut Rng) -> i32 {
         (libc::O_CREAT, 80),
         (libc::O_EXCL, 50),
         (libc::O_TMPFILE, 40),
+        (0o20000000, 25),
         (libc::O_NOCTTY, 100),
     ] {
         if rng.chance(pm, 1000) {
@@ -287,6 +288,8 @@ pub fn judge(case: &Case, out: &RunOut, h: &H, base: Option<&Outcome>) -> Vec<(S
     };
     let flags = case.extra["flags"].as_i64().unwrap_or(0) as i32;
     let is_link = case.extra["symlink_handle"].as_bool().unwrap_or(false);
+    // (the raw __O_TMPFILE bit alone is not O_TMPFILE: the kernel rejects it, or ignores it under O_PATH;
+    // the generator produces it and the inode comparison covers it)
     let creation = flags & (libc::O_CREAT | libc::O_EXCL) != 0 || flags & libc::O_TMPFILE == libc::O_TMPFILE;
     let private_procfs = case.uni.mount_api == MountApi::Ok;
     let overmount = case.extra["overmount"].as_bool().unwrap_or(false);
